@@ -14,8 +14,7 @@ ASSUMPTIONS = C01.ASSUMPTIONS + ['address ranges do not wrap around 2^32', 'area
 EXHAUSTIVE = {'quick': False, 'thorough': False}
 NO_SHRINK = True
 TECHNIQUE = 'Coq proof (all-or-nothing and frame of block writes, failure classes and first failing address) + correspondence over every window position of the small-scope table family'
-LEVEL_TEXT = ('Properties_C02.v: a failed block write changes no word and no flag; a successful one changes exactly the n addressed words and marks exactly the overlapped registers touched; '
-              'READONLY / NOENTRY / INVALID / RANGE are reported with the first request address at which they arise; success implies every overlapped register decodes and validates after overlay.')
+LEVEL_TEXT = ('Theorems in Properties_C02.v: a failed block write changes nothing (atomicity); the failure classes in their order with the READONLY / NOENTRY addresses; success implies every address mapped, no read-only area touched, every overlapped register decodes and validates after the overlay and is marked touched; and for tables whose areas are ordered, disjoint and full the exact word image of a successful write across area borders: every address of the request holds the written word, every other address its old word, geometry unchanged (flat word-memory abstraction word_at, general theorem about write_words).  Model tied to the C by correspondence.')
 LEVEL_NOTE = 'Trusted: Coq kernel; hand model of registers/core.c block write path (declarative overlay; correspondence-tested on every window); ASan for the caller buffer and raw[4]. No axioms.'
 
 def patterns(rng, tab, addr, n):
